@@ -55,6 +55,7 @@ Definition dec_cev (l : list Z) : option (cev * list Z) :=
   | 5 :: r => Some (CInOk, r) | 6 :: r => Some (CInFail, r)
   | 7 :: r => Some (COutGone, r) | 8 :: r => Some (CInGone, r)
   | 9 :: r => Some (CStop, r) | 10 :: r => Some (CStart, r)
+  | 11 :: r => Some (CIncoming, r)       (* a connection that announces another torrent: its handshake will fail *)
   | _ => None
   end.
 
@@ -64,7 +65,9 @@ Fixpoint run_cl_go (fuel : nat) (md ma : Z) (s : cl) (l : list Z) : list Z :=
   match fuel with
   | O => []
   | S f => match dec_cev l with
-           | Some (e, r) => let s' := cstep md ma s e in obs_cl s' ++ run_cl_go f md ma s' r
+           | Some (e, r) => let s' := cstep md ma s e in
+                            (* a refused incoming handshake: the client closes that connection *)
+                            obs_cl s' ++ (match e with CInFail => [1] | _ => [] end) ++ run_cl_go f md ma s' r
            | None => match l with [] => [] | _ => [-779] end
            end
   end.
